@@ -387,6 +387,8 @@ impl QueryTask {
             .unwrap_or(&self.main_phase.limit);
         let limit = lo.limit as usize;
         let offset = lo.offset as usize;
+        // An offset beyond the end of the result selects nothing
+        let offset = cmp::min(offset, full_result.len());
         let count = cmp::min(limit, full_result.len() - offset);
         full_result.validate().unwrap();
 
@@ -438,7 +440,10 @@ impl QueryTask {
     }
 
     fn combined_limit(&self) -> usize {
-        (self.main_phase.limit.limit + self.main_phase.limit.offset) as usize
+        self.main_phase
+            .limit
+            .limit
+            .saturating_add(self.main_phase.limit.offset) as usize
     }
 }
 
